@@ -211,6 +211,10 @@ func (ld *Layerdefs) findLayerstate(layer *Layerinfo) {
 
 	base := layer.Base
 	numMounted := 0
+	numExpected := len(layer.ConfigMounts)
+	if len(base) > 0 {
+		numExpected++
+	}
 
 	if len(base) > 0 {
 		// Derived layer:  is correct overlayfs mount in place?
@@ -348,7 +352,7 @@ func (ld *Layerdefs) findLayerstate(layer *Layerinfo) {
 
 	if numMounted == 0 {
 		layer.State = Layerstate_mountable
-	} else if numMounted < len(layer.ConfigMounts) {
+	} else if numMounted < numExpected {
 		layer.State = Layerstate_partialmount
 	} else if layer.MountBusy || layer.Overlain {
 		layer.State = Layerstate_mounted_busy
